@@ -115,7 +115,7 @@ public:
     while (node != nullptr)
     {
       auto processor = node->value_.get();
-      result |= processor->ForceFlush(timeout);
+      result &= processor->ForceFlush(timeout);
       node = node->next_;
     }
     return result;
@@ -129,7 +129,7 @@ public:
     while (node != nullptr)
     {
       auto processor = node->value_.get();
-      result |= processor->Shutdown(timeout);
+      result &= processor->Shutdown(timeout);
       node = node->next_;
     }
     return result;
